@@ -63,7 +63,7 @@ def run(module, cfg, workdir, workers=16, simulate=None, depth=None, seed=None, 
         with open(os.path.join(workdir, os.path.basename(cfg)), "w") as f:
             f.write(cfg_text)
     meta = os.path.join(workdir, "meta-%s-%d" % (cfg.replace("/", "_"), int(time.time() * 1000) % 10**9))
-    jopts = ["-Xmx" + heap, "-XX:+UseParallelGC"]
+    jopts = ["-Xmx" + heap, "-XX:+UseParallelGC", "-Xss256m"]
     if dfs:
         jopts.append("-Dtlc2.tool.queue.IStateQueue=StateDeque")
     cmd = ["java"] + jopts + ["-cp", _classpath(), "tlc2.TLC", "-metadir", meta, "-noGenerateSpecTE",
